@@ -64,6 +64,8 @@ def split_events(ctx):
                 crc = base64.b64encode(Armorable.crc24(blob).to_bytes(3, 'big')).decode()
                 data = '-----BEGIN PGP %s-----\n\n%s\n=%s\n-----END PGP %s-----\n' % (label, '\n'.join(b64[i:i + 64] for i in range(0, len(b64), 64)), crc, label)
             e = {'k': 'split', 'label': '+'.join(names) + (' armored blocks one after the other' if armor == 'blocks' else ' armored' if armor else ''), 'blob': octets(blob)}
+            if armor:
+                e['text'] = [ord(ch) for ch in data]       # the armored text itself: TLC decodes it (all blocks) and compares with the blob
             # claims about the primaries in the blob (preimages rechecked by TLC)
             prim, counts = [], []
             for tag, body, raw in build.read_packets(blob):
